@@ -13,7 +13,7 @@
    call, in any combination) are included. *)
 From Coq Require Import List NArith Bool String Permutation.
 From Verif.C17 Require Import Model Spec Proofs ProofsAttempt ProofsWinner ProofsApply ProofsEvery ProofsSound ProofsFull
-  ProofsView ProofsRefresh ProofsSync ProofsHistory ProofsOvertaken ProofsChurn.
+  ProofsView ProofsRefresh ProofsSync ProofsHistory ProofsOvertaken ProofsChurn ProofsOracle.
 Import ListNotations.
 Open Scope N_scope.
 
@@ -250,6 +250,21 @@ Theorem c17_any_history_with_flaps : forall cfg e0 ops p s' e',
   (forall k, lookup rkey_eqb (s_desired s') k = winner cfg s' k) /\ VM cfg s' e'.
 Proof. exact any_history_flaps. Qed.
 Print Assumptions c17_any_history_with_flaps.
+
+(* Tie to the specification oracle (Spec.v, the thing evaluated on the implementation's observations): in a synchronised
+   state that satisfies the conclusions of c17_any_history, the oracle's convergence clause ok_key -- winners of the
+   lowest class among the candidates usable according to the KERNEL's links, ownership evaluated on the kernel's links --
+   accepts the kernel at every destination (no grace period configured).  So the model-level notion of "converged" is at
+   least as strong as the oracle's.  A whole-history model_meets_spec (ok_history accepts every model run, including its
+   bookkeeping of outside changes and unreported link changes) is not proved. *)
+Theorem c17_oracle_accepts_converged : forall cfg (sp : Spec.sp) s' e' k,
+  c_grace cfg = 0 -> wf_links e' -> NoDup (keys (e_links e')) -> lookup String.eqb (e_links e') ""%string = None ->
+  J cfg e' s' -> ConvStale cfg s' e' ->
+  (forall c n k0 t, In ((c, n, k0), t) (s_routes s') -> c <= 1000 /\ (n = NoOIF \/ iface_is_ours (c_pol cfg) n = true)) ->
+  p_D sp = s_routes s' -> e_links (p_env sp) = e_links e' ->
+  ok_key cfg sp (e_routes e') k = true.
+Proof. exact oracle_accepts_converged. Qed.
+Print Assumptions c17_oracle_accepts_converged.
 
 (* The fault excluded by plan_simple / plan_honest, inside a theorem: whole-table dumps that yield part of the routes,
    are overtaken by somebody else changing the kernel (anything, any table) and fail with EINTR, any number of times,
